@@ -83,7 +83,12 @@ enum InstK {
     Real,
     Empty,
     NoneOpt,
+    /// `emit_traceparent::TraceparentCtxt<ThreadLocalCtxt>`: a wrapper that forwards every frame
+    /// operation to the wrapped context (no span ids are ever pushed here, so its own slot stays out of play)
+    Tp,
 }
+
+type TpCtxt = emit_traceparent::TraceparentCtxt<ThreadLocalCtxt>;
 
 static EMPTY: emit::Empty = emit::Empty;
 
@@ -118,6 +123,18 @@ impl Inst {
         }
     }
 
+    /// `TraceparentCtxt::new(ThreadLocalCtxt::new())`
+    fn tp() -> Inst {
+        let tl = ThreadLocalCtxt::new();
+        Inst {
+            k: InstK::Tp,
+            tl,
+            tl_ref: Box::leak(Box::new(tl)),
+            erased: Box::leak(Box::new(TpCtxt::new(tl)) as Box<DynCtxt>),
+            erased_boxed: Box::leak(Box::new(Padded(TpCtxt::new(tl))) as Box<DynCtxt>),
+        }
+    }
+
     /// `Option::<ThreadLocalCtxt>::None` as a context
     fn none() -> Inst {
         let tl = ThreadLocalCtxt::new();      // never used
@@ -140,6 +157,7 @@ enum AnyFrame {
     Ar(Frame<std::sync::Arc<ThreadLocalCtxt>>),
     Emp(Frame<emit::Empty>),
     EmpRef(Frame<&'static emit::Empty>),
+    Tp(Frame<TpCtxt>),
 }
 
 /// `on_frame!(frame, x => expr)`: the same expression for whatever context form the frame has.
@@ -154,6 +172,7 @@ macro_rules! on_frame {
             AnyFrame::Ar($x) => $e,
             AnyFrame::Emp($x) => $e,
             AnyFrame::EmpRef($x) => $e,
+            AnyFrame::Tp($x) => $e,
         }
     };
 }
@@ -222,6 +241,17 @@ fn get_props(p: &(impl Props + ?Sized), nkeys: usize, pull: bool) -> Value {
 }
 
 fn open_generic<C: Ctxt>(c: C, kind: &str, props: &[(&'static str, i64)]) -> Frame<C> {
+    // an EMPTY property set: half of the time as `emit::Empty` itself (Frame::root(ctxt, Empty) is
+    // the idiom for detaching work from the ambient context), otherwise as an empty slice
+    if props.is_empty() && EMPTY_AS_TYPE.load(Ordering::Relaxed) {
+        return match kind {
+            "push" => Frame::push(c, emit::Empty),
+            "root" => Frame::root(c, emit::Empty),
+            "disabled" => Frame::disabled(c, emit::Empty),
+            "current" => Frame::current(c),
+            _ => tool_error("frame kind"),
+        };
+    }
     match kind {
         "push" => Frame::push(c, props),
         "root" => Frame::root(c, props),
@@ -283,6 +313,7 @@ impl M03 {
                 "default" => Inst::new(<ThreadLocalCtxt as Default>::default()),
                 "empty" => Inst::empty(),
                 "none" => Inst::none(),
+                "tp" => Inst::tp(),
                 "setup" => {
                     // the context of a runtime built the way applications do, in a fresh slot
                     let slot: &'static emit::runtime::AmbientSlot = Box::leak(Box::new(emit::runtime::AmbientSlot::new()));
@@ -329,6 +360,7 @@ impl M03 {
 }
 
 static NKEYS: AtomicU64 = AtomicU64::new(2);
+static EMPTY_AS_TYPE: std::sync::atomic::AtomicBool = std::sync::atomic::AtomicBool::new(false);
 
 impl Machine for M03 {
     fn exec(&'static self, step: &Value) -> Option<Leave> {
@@ -357,6 +389,11 @@ impl Machine for M03 {
                         0 => AnyFrame::Emp(open_generic(emit::Empty, kind, &props)),
                         1 => AnyFrame::EmpRef(open_generic(&EMPTY, kind, &props)),
                         2 => AnyFrame::Dyn(open_generic(inst.erased, kind, &props)),
+                        _ => AnyFrame::Dyn(open_generic(inst.erased_boxed, kind, &props)),
+                    },
+                    InstK::Tp => match (salt + f) % 3 {
+                        0 => AnyFrame::Tp(open_generic(TpCtxt::new(inst.tl), kind, &props)),
+                        1 => AnyFrame::Dyn(open_generic(inst.erased, kind, &props)),
                         _ => AnyFrame::Dyn(open_generic(inst.erased_boxed, kind, &props)),
                     },
                     InstK::NoneOpt => match (salt + f) % 3 {
@@ -399,7 +436,7 @@ impl Machine for M03 {
                     AnyFrame::Ar(x) => read_props(x.inner(), nk),
                     AnyFrame::Emp(x) => read_props(x.inner(), nk),
                     AnyFrame::EmpRef(x) => read_props(x.inner(), nk),
-                    AnyFrame::Dyn(_) => sees.clone(),
+                    AnyFrame::Dyn(_) | AnyFrame::Tp(_) => sees.clone(),
                 };
                 self.put_frame(f, fr);
                 reply(json!({"sees": sees, "sees_after_panic": again, "inner": inner}));
@@ -424,6 +461,7 @@ impl Machine for M03 {
                         AnyFrame::Ar(x) => { let (x, r) = guard_generic(x, variant, body); (AnyFrame::Ar(x), r) }
                         AnyFrame::Emp(x) => { let (x, r) = guard_generic(x, variant, body); (AnyFrame::Emp(x), r) }
                         AnyFrame::EmpRef(x) => { let (x, r) = guard_generic(x, variant, body); (AnyFrame::EmpRef(x), r) }
+                        AnyFrame::Tp(x) => { let (x, r) = guard_generic(x, variant, body); (AnyFrame::Tp(x), r) }
                     };
                     self.put_frame(f, fr);
                     rethrow(r)
@@ -625,6 +663,17 @@ fn event_through<C: Ctxt>(c: C, nk: usize) -> Value {
 /// What a context that stores nothing shows (through every form it can be used in).
 fn observe_inert(inst: &Inst, rot: u64, nk: usize) -> Value {
     let (en, get, evt) = match inst.k {
+        InstK::Tp => (
+            match rot % 2 {
+                0 => TpCtxt::new(inst.tl).with_current(|p| read_props(p, nk)),
+                _ => inst.erased.with_current(|p| read_props(p, nk)),
+            },
+            match rot % 2 {
+                0 => inst.erased_boxed.with_current(|p| get_props(p, nk, false)),
+                _ => TpCtxt::new(inst.tl).with_current(|p| get_props(p, nk, true)),
+            },
+            if rot % 2 == 0 { event_through(TpCtxt::new(inst.tl), nk) } else { event_through(inst.erased_boxed, nk) },
+        ),
         InstK::Empty => (
             match rot % 3 {
                 0 => emit::Empty.with_current(|p| read_props(p, nk)),
@@ -659,14 +708,20 @@ fn probe_inert(inst: &Inst, i: usize, salt: u64, nk: usize) -> Value {
             let outer_seen = read_props(outer, nk);
             let inner = other.with_current(|p| read_props(p, nk));
             let opened = Frame::current(c).with(|p| read_props(p, nk));
-            let root = Frame::root(c, [("a", 1i64)]).with(|p| read_props(p, nk));
+            // a detached (root, empty) frame opened and looked into here shows nothing and changes nothing
+            let root = Frame::root(c, emit::Empty).with(|p| read_props(p, nk));
+            let after_root = c.with_current(|p| read_props(p, nk));
             let ev = event_through(c, nk);
-            json!({"outer": outer_seen, "inner": inner, "opened inside": opened, "root frame opened inside": root, "event inside": ev})
+            if root != json!(vec![0i64; nk]) {
+                return json!({"a root frame without properties, looked into inside a callback (must show nothing)": {"shows": root}});
+            }
+            json!({"outer": outer_seen, "inner": inner, "opened inside": opened, "after a detached root frame inside": after_root, "event inside": ev})
         })
     }
     let n = match (inst.k, salt % 2) {
         (InstK::Empty, 0) => nested(emit::Empty, inst.erased_boxed, nk),
         (InstK::NoneOpt, 0) => nested(None::<ThreadLocalCtxt>, inst.erased_boxed, nk),
+        (InstK::Tp, 0) => nested(TpCtxt::new(inst.tl), inst.erased_boxed, nk),
         _ => nested(inst.erased, inst.erased_boxed, nk),
     };
     let _ = catching(|| inst.erased.with_current(|_| panic!("probe")));
@@ -699,6 +754,7 @@ fn main() {
         |m, no, case| {
             let m: &'static M03 = *m;
             m.salt.store(no as u64, Ordering::Relaxed);
+            EMPTY_AS_TYPE.store(no % 2 == 0, Ordering::Relaxed);
             m.dynamic.lock().unwrap().clear();
             m.frames.lock().unwrap().clear();
             m.tasks.lock().unwrap().clear();
